@@ -265,6 +265,9 @@ func specTags(fs *FuncSpec) []string {
 		}
 	}
 	for _, l := range fs.Iters {
+		if l.NoHalt != nil {
+			add(l.NoHalt.Tags)
+		}
 		for _, c := range l.Invariants {
 			add(c.Tags)
 		}
@@ -1484,6 +1487,29 @@ func (x *Exec) checkPost(s *State, fr *Frame, rs []Value, in *ssa.Return) {
 				nm = fmt.Sprintf("exit#%s.%d@%s", label, k, retName)
 			}
 			x.oblige(s, "post", nm, g, c.Tags, in.Pos(), label)
+		}
+	}
+	// lock balance: a mutex locked by this call is back in its entry state at every return
+	if len(s.locked) > 0 && (x.safety || len(x.spec.Frame) > 0) {
+		tags := append(append([]string{}, x.spec.Safety...), x.spec.Frame...)
+		seenL := map[string]bool{}
+		for _, l := range s.locked {
+			mi := -1
+			for i, f := range x.w.StructFields(l.Type()) {
+				if f.Name == "$mu" {
+					mi = i
+				}
+			}
+			if mi < 0 {
+				continue
+			}
+			ml := l.extend(PathStep{Field: mi, FT: types.Typ[types.Int]})
+			now, was := x.readLoc(s, ml).Term, x.readLoc(x.entry, ml).Term
+			if now == nil || was == nil || seenL[now.Key()+"|"+was.Key()] {
+				continue
+			}
+			seenL[now.Key()+"|"+was.Key()] = true
+			x.oblige(s, "post", fmt.Sprintf("safe.lockbalance@%s", retName), Eq(now, was), tags, in.Pos(), "every mutex locked by this call is released on this path")
 		}
 	}
 	// `fresh r [when c]`: the result is an object allocated during this call
